@@ -4,6 +4,10 @@ use aelys_common::error::{RuntimeError, RuntimeErrorKind};
 
 impl VM {
     pub fn print_value(&self, value: Value) {
+        #[cfg(vbxq_aelys_lang_verif)]
+        if crate::verif::sink_write(&format!("{}\n", self.value_to_string(value))) {
+            return;
+        }
         println!("{}", self.value_to_string(value));
     }
 
